@@ -1172,6 +1172,26 @@ def run(ctx, only_replay=None):
             else:
                 continue
             chosen[c].append(s)
+    # "seek storms": long histories of position-changing seeks, each followed by a one-byte Read, on the files with many
+    # chunks - every Seek stops a pipeline that is still decompressing ahead, so the workers' cancel paths (buffers of
+    # results not yet sent, stale requests) are taken dozens of times by the same Reader; expectations are exact (Seek
+    # returns the position, a one-byte Read inside the file returns that byte).  (Seeded change C14-m5: a buffer lost
+    # on every cancelled result - a Worker is out of buffers after two.)
+    storm = []
+    if not (active[KEY_STALE] or active[KEY_RAISE]):
+        for fid in ("m4", "b3", "ml"):
+            if fid not in bounds:
+                continue
+            dsz = bounds[fid][-1]
+            for k in range(12 if thorough else 3):
+                h = []
+                for _ in range(40):
+                    pos = rng.randrange(0, max(1, dsz - 1))
+                    h.append([1, pos, 0, 2, 0, pos, 0, 0])
+                    h.append([0, 1, 0, 2, 1, pos, 0, 0])
+                storm.append({"id": 800000 + len(storm), "f": fid, "h": h})
+        for c in (2, 4):
+            chosen[c] += storm
     # every counterexample of the model: always with Concurrency 2, with 1 and 4 unless it is the
     # exact construct of a still-active hanging finding
     cex_runs = []
